@@ -43,6 +43,27 @@ def install(c):
     c.hooks['diskcache.core.Cache._sql'] = lambda it, f, a, k: sqlfn
     c.hooks['diskcache.core.Cache._sql_retry'] = lambda it, f, a, k: sqlfn
     c.hooks['diskcache.core.Cache.reset'] = reset_contract
+    # retry loop of _transact (BEGIN IMMEDIATE until it succeeds): nothing may change while waiting
+    from pyvc.loops import LoopSpec
+
+    def begin_retry_inv(it, fr, _):
+        st = it.st
+        snap = st.ghost.get('begin_retry_snapshot')
+        cur = {k: v for k, v in st.world.items() if k.startswith(('T.', 'S.', 'F.'))}
+        if snap is None:
+            st.ghost['begin_retry_snapshot'] = cur
+            return z3.BoolVal(True)
+        same = all(k in cur and (cur[k] is snap[k] or (hasattr(cur[k], 'eq') and cur[k].eq(snap[k]))) for k in snap)
+        return z3.BoolVal(bool(same and not st.world.get('txn.active')))
+
+    class BeginRetry(LoopSpec):
+        def havoc(self, it, s, fr):
+            pass        # nothing is assigned before the loop is left; the world is pinned by the invariant
+
+        def run(self, it, s, fr, iterable):
+            it.st.ghost['begin_retry_snapshot'] = None
+            return LoopSpec.run(self, it, s, fr, iterable)
+    c.loop_invariants[('diskcache.core.Cache._transact', 0)] = BeginRetry('transact.begin_retry', begin_retry_inv)
     # DbCell values: equality / None tests
     base_eq = env.py_eq
 
